@@ -1,22 +1,25 @@
 /- Helper lemmas for C17 (concurrent steps): the final lane states do not depend on the schedule. -/
 import PypyrModel.Cmd
+import Props.Lemmas.C17_Serial
+
+set_option linter.unusedSimpArgs false
 
 namespace Pypyr.Cmd
 
 theorem drain_complete (l : Lane) : l.complete.drain = l.drain := by
-  obtain ⟨done, cur, todo⟩ := l
+  obtain ⟨done, cur, todo, dec⟩ := l
   cases cur with
   | none => simp [Lane.complete]
   | some p =>
     cases todo with
     | nil =>
-      by_cases h : p.code ≠ 0 <;> simp [Lane.complete, Lane.drain, drainFrom, launch, h]
+      by_cases h : p.halts dec = true <;> simp [Lane.complete, Lane.drain, drainFrom, launch, h]
     | cons q qs =>
-      by_cases h : p.code ≠ 0
+      by_cases h : p.halts dec = true
       · simp [Lane.complete, Lane.drain, drainFrom, h]
-      · simp only [Lane.complete, Lane.drain, if_neg h]
+      · simp only [Lane.complete, Lane.drain, h]
         conv => rhs; unfold drainFrom
-        simp only [if_neg h, launch]
+        simp only [h, launch]
         cases q.spawn <;> simp [drainFrom]
 
 theorem map_drain_modifyAt (ls : List Lane) (i : Nat) :
@@ -39,27 +42,26 @@ theorem runSched_drain (ls : List Lane) (sched : List Nat) :
 
 /-- A running (hence startable) process followed by the rest of its sub-list: the lane ends having
     dealt with exactly the prefix through the first instruction that stops. -/
-theorem drainFrom_some (done : List Proc) (p : Proc) (qs : List Proc) (hp : p.spawn = none) :
-    drainFrom done (some p) qs =
-      ⟨done ++ takeThrough (p :: qs), none, (p :: qs).drop (takeThrough (p :: qs)).length⟩ := by
+theorem drainFrom_some (dec : Bool) (done : List Proc) (p : Proc) (qs : List Proc) (hp : p.spawn = none) :
+    drainFrom dec done (some p) qs =
+      ⟨done ++ takeThrough dec (p :: qs), none, (p :: qs).drop (takeThrough dec (p :: qs)).length, dec⟩ := by
   induction qs generalizing done p with
-  | nil => by_cases h : p.code ≠ 0 <;> simp [drainFrom, takeThrough, Proc.stops, hp, h]
+  | nil => by_cases h : p.halts dec = true <;> simp [drainFrom, takeThrough, Proc.stops, hp, h]
   | cons q qs ih =>
     unfold drainFrom
-    by_cases h : p.code ≠ 0
+    by_cases h : p.halts dec = true
     · simp [takeThrough, Proc.stops, hp, h]
-    · have hz : p.code = 0 := by omega
-      simp only [if_neg h]
+    · simp only [h]
       cases hq : q.spawn with
       | some k =>
-        simp [takeThrough, Proc.stops, hp, hz, hq]
+        simp [takeThrough, Proc.stops, hp, h, hq]
       | none =>
         simp only []
         rw [ih _ _ hq]
         conv => rhs; unfold takeThrough
-        simp [Proc.stops, hp, hz]
+        simp [Proc.stops, hp, h]
 
-theorem drain_start (ps : List Proc) : (Lane.start ps).drain = finalLane ps := by
+theorem drain_start (dec : Bool) (ps : List Proc) : (Lane.start dec ps).drain = finalLane dec ps := by
   cases ps with
   | nil => simp [Lane.start, launch, Lane.drain, drainFrom, finalLane, takeThrough]
   | cons p ps =>
@@ -69,49 +71,56 @@ theorem drain_start (ps : List Proc) : (Lane.start ps).drain = finalLane ps := b
 
 /-- The lanes once `asyncio.gather` has returned, whatever the schedule. -/
 theorem final_lanes (cs : List ACommand) (sched : List Nat) :
-    drainAll (runSched ((lanesOf cs).map Lane.start) sched).1 = (lanesOf cs).map finalLane := by
+    drainAll (runSched ((lanesOf cs).map (fun l => Lane.start l.dec l.procs)) sched).1 =
+      (lanesOf cs).map (fun l => finalLane l.dec l.procs) := by
   rw [runSched_drain]
   simp [drainAll, drain_start]
 
+theorem flatMap_congr_mem {α β} {l : List α} {f g : α → List β} (h : ∀ x ∈ l, f x = g x) :
+    l.flatMap f = l.flatMap g := by
+  induction l with
+  | nil => rfl
+  | cons x xs ih =>
+    simp only [List.flatMap_cons, h x (by simp), ih (fun y hy => h y (by simp [hy]))]
+
 /-! ### Declarative description of what is collected -/
 
-/-- A lane with the settings of the command it belongs to. -/
-structure ALane where
-  procs : List Proc
-  save  : Bool
-  text  : Bool
-  deriving Repr, DecidableEq
-
-def alanesOfCmd (c : ACommand) : List ALane := c.run.lanes.map (fun ps => ⟨ps, c.save, c.text⟩)
-
-def alanesOf : List ACommand → List ALane
-  | [] => []
-  | c :: cs => alanesOfCmd c ++ alanesOf cs
-
-theorem alanesOf_procs (cs : List ACommand) : (alanesOf cs).map (·.procs) = lanesOf cs := by
+theorem lanes_all_save (cs : List ACommand) (hs : ∀ c ∈ cs, c.save = true) :
+    ∀ l ∈ lanesOf cs, l.save = true := by
   induction cs with
-  | nil => rfl
-  | cons c cs ih => simp [alanesOf, lanesOf, alanesOfCmd, ih, Function.comp_def]
-
-theorem alanes_all_save (cs : List ACommand) (hs : ∀ c ∈ cs, c.save = true) :
-    ∀ l ∈ alanesOf cs, l.save = true := by
-  induction cs with
-  | nil => simp [alanesOf]
+  | nil => simp [lanesOf]
   | cons c cs ih =>
     intro l hl
-    simp only [alanesOf, alanesOfCmd, List.mem_append, List.mem_map] at hl
+    simp only [lanesOf, List.mem_append] at hl
     cases hl with
-    | inl h => obtain ⟨ps, _, rfl⟩ := h; exact hs c (by simp)
+    | inl h =>
+      unfold ACommand.lanes at h
+      cases ho : c.redir.openError with
+      | some e => simp [ho] at h
+      | none =>
+        simp only [ho, List.mem_map] at h
+        obtain ⟨ps, _, rfl⟩ := h
+        exact hs c (by simp)
     | inr h => exact ih (fun c' hc' => hs c' (by simp [hc'])) l h
 
 /-- Items of a lane: one per instruction attempted, in the order of the sub-list. -/
-def ALane.items (l : ALane) : List Item := (takeThrough l.procs).map (mkItem l.save l.text)
+def ALane.items (l : ALane) : List Item := (takeThrough l.dec l.procs).map (mkItem l.save l.text)
 
-/-- Results of a lane: one per process that existed, in the order of the sub-list. -/
+/-- Results of a lane: one per process that existed and whose output could be decoded, in the order of
+    the sub-list. -/
 def ALane.results (l : ALane) : List Result :=
-  ((takeThrough l.procs).filter Proc.ran).map (mkResultAsync l.save l.text)
+  ((takeThrough l.dec l.procs).filter (fun p => p.ran && !(l.dec && p.decodeFails))).map
+    (mkResultAsync l.save l.text)
 
 def ALane.errors (l : ALane) : List CmdErr := l.items.flatMap itemErrors
+
+/-- Items of a command: the exception of its output handles, or the items of its lanes. -/
+def ACommand.items (c : ACommand) : List Item :=
+  match c.redir.openError with
+  | some e => [.exc e]
+  | none => c.lanes.flatMap ALane.items
+
+def ACommand.errors (c : ACommand) : List CmdErr := c.items.flatMap itemErrors
 
 /-- Flatten `cmdOut` (items and nested sub-list items) to the sequence of items. -/
 def slotItems : List Slot → List Item
@@ -123,7 +132,7 @@ def slotItems : List Slot → List Item
 def itemResults : List Item → List Result
   | [] => []
   | .res r :: is => r :: itemResults is
-  | .exc _ _ :: is => itemResults is
+  | .exc _ :: is => itemResults is
 
 theorem itemResults_append (a b : List Item) : itemResults (a ++ b) = itemResults a ++ itemResults b := by
   induction a with
@@ -154,23 +163,30 @@ theorem slotErrors_eq (ss : List Slot) : slotErrors ss = (slotItems ss).flatMap 
   | nil => rfl
   | cons s ss ih => cases s <;> simp [slotErrors, slotItems, ih]
 
-theorem takeThrough_one (p : Proc) : takeThrough [p] = [p] := by
-  by_cases h : p.stops = true <;> simp [takeThrough, h]
+theorem takeThrough_one (dec : Bool) (p : Proc) : takeThrough dec [p] = [p] := by
+  by_cases h : p.stops dec = true <;> simp [takeThrough, h]
 
-/-- The results among the items of a lane are the results of the processes that existed. -/
+/-- The results among the items of a lane are the results of the processes that existed and whose
+    output could be decoded. -/
 theorem itemResults_items (save text : Bool) (ps : List Proc) :
-    itemResults (ps.map (mkItem save text)) = (ps.filter Proc.ran).map (mkResultAsync save text) := by
+    itemResults (ps.map (mkItem save text)) =
+      (ps.filter (fun p => p.ran && !(save && text && p.decodeFails))).map (mkResultAsync save text) := by
   induction ps with
   | nil => rfl
   | cons p ps ih =>
-    cases hp : p.spawn <;> simp [mkItem, hp, itemResults, Proc.ran, ih]
+    cases hp : p.spawn with
+    | some k => simp [mkItem, hp, itemResults, Proc.ran, ih]
+    | none =>
+      cases hd : p.decodeFails <;> cases save <;> cases text <;>
+        simp [mkItem, hp, itemResults, Proc.ran, hd, List.filter_cons] at ih ⊢ <;> exact ih
 
 theorem ALane.results_eq (l : ALane) : l.results = itemResults l.items :=
-  (itemResults_items l.save l.text (takeThrough l.procs)).symm
+  (itemResults_items l.save l.text (takeThrough l.dec l.procs)).symm
 
 /-- The errors of an item built from an instruction: exactly when the instruction `stops`. -/
 theorem itemErrors_mkItem (save text : Bool) (p : Proc) :
-    itemErrors (mkItem save text p) = if p.stops then [p.error] else [] := by
+    itemErrors (mkItem save text p) =
+      if p.stops (save && text) then [p.error (save && text)] else [] := by
   cases hp : p.spawn with
   | some k => simp [mkItem, hp, itemErrors, Proc.stops, Proc.error]
   | none =>
@@ -178,26 +194,31 @@ theorem itemErrors_mkItem (save text : Bool) (p : Proc) :
       simp only [mkResultAsync]
       split <;> try split
       all_goals exact ⟨rfl, rfl⟩
-    by_cases h : p.code ≠ 0
-    · simp [mkItem, hp, itemErrors, Proc.stops, Proc.error, hc.1, hc.2, h]
-    · have hz : p.code = 0 := by omega
-      simp [mkItem, hp, itemErrors, Proc.stops, hc.1, hz]
+    by_cases hu : (save && text && p.decodeFails) = true
+    · simp [mkItem, hp, itemErrors, Proc.stops, Proc.halts, Proc.error, hu]
+    · have hu' : (save && text && p.decodeFails) = false := by simpa using hu
+      by_cases h : p.code ≠ 0
+      · simp [mkItem, hp, itemErrors, Proc.stops, Proc.halts, Proc.error, hc.1, hc.2, h, hu']
+      · have hz : p.code = 0 := by omega
+        simp [mkItem, hp, itemErrors, Proc.stops, Proc.halts, hc.1, hz, hu']
 
 theorem flatMap_itemErrors (save text : Bool) (ps : List Proc) :
-    (ps.map (mkItem save text)).flatMap itemErrors = (ps.filter Proc.stops).map Proc.error := by
+    (ps.map (mkItem save text)).flatMap itemErrors =
+      (ps.filter (Proc.stops (save && text))).map (Proc.error (save && text)) := by
   induction ps with
   | nil => rfl
   | cons p ps ih =>
     simp only [List.map_cons, List.flatMap_cons, ih, itemErrors_mkItem, List.filter_cons]
-    by_cases h : p.stops = true <;> simp [h]
+    by_cases h : p.stops (save && text) = true <;> simp [h]
 
 theorem ALane.errors_eq (l : ALane) :
-    l.errors = ((takeThrough l.procs).filter Proc.stops).map Proc.error :=
-  flatMap_itemErrors l.save l.text (takeThrough l.procs)
+    l.errors = ((takeThrough l.dec l.procs).filter (Proc.stops l.dec)).map (Proc.error l.dec) :=
+  flatMap_itemErrors l.save l.text (takeThrough l.dec l.procs)
 
 /-- What `entrySlots` yields on the final lanes of its entries. -/
 theorem entrySlots_final (save text : Bool) (es : List Entry) (rest : List Lane) :
-    let r := entrySlots save text es ((es.map Entry.procs).map finalLane ++ rest)
+    let r := entrySlots save text es
+      ((es.map Entry.procs).map (fun ps => finalLane (save && text) ps) ++ rest)
     r.2 = rest ∧
     slotItems r.1 = (es.map Entry.procs).flatMap (fun ps => (⟨ps, save, text⟩ : ALane).items) := by
   induction es with
@@ -209,74 +230,71 @@ theorem entrySlots_final (save text : Bool) (es : List Entry) (rest : List Lane)
       simp only [List.map_cons, List.cons_append, entrySlots, Entry.procs]
       refine ⟨ih.1, ?_⟩
       rw [slotItems_append, ih.2]
-      simp [finalLane, takeThrough_one, slotItems, ALane.items]
+      simp [finalLane, takeThrough_one, slotItems, ALane.items, ALane.dec]
     | serial ps =>
       simp only [List.map_cons, List.cons_append, entrySlots, Entry.procs]
       refine ⟨ih.1, ?_⟩
       simp only [slotItems, List.flatMap_cons]
       rw [ih.2]
-      simp [finalLane, ALane.items]
+      simp [finalLane, ALane.items, ALane.dec]
 
 theorem commandSlots_final (c : ACommand) (rest : List Lane) :
-    let r := commandSlots c (c.run.lanes.map finalLane ++ rest)
-    r.2 = rest ∧ slotItems r.1 = (alanesOfCmd c).flatMap ALane.items := by
-  obtain ⟨run, save, text⟩ := c
-  cases run with
-  | single p =>
-    have h := entrySlots_final save text [.one p] rest
-    simp only [] at h
-    simpa [commandSlots, ARun.lanes, alanesOfCmd, Entry.procs, List.flatMap_map] using h
-  | many es =>
-    have h := entrySlots_final save text es rest
-    simp only [] at h
-    simpa [commandSlots, ARun.lanes, alanesOfCmd, List.flatMap_map] using h
+    let r := commandSlots c (c.lanes.map (fun l => finalLane l.dec l.procs) ++ rest)
+    r.2 = rest ∧ slotItems r.1 = c.items := by
+  obtain ⟨run, save, text, redir⟩ := c
+  cases ho : redir.openError with
+  | some e => simp [commandSlots, ACommand.lanes, ACommand.items, ho, slotItems]
+  | none =>
+    cases run with
+    | single p =>
+      have h := entrySlots_final save text [.one p] rest
+      simp only [] at h
+      simpa [commandSlots, ACommand.lanes, ACommand.items, ho, ARun.lanes, Entry.procs, List.flatMap_map,
+        ALane.dec, Function.comp_def] using h
+    | many es =>
+      have h := entrySlots_final save text es rest
+      simp only [] at h
+      simpa [commandSlots, ACommand.lanes, ACommand.items, ho, ARun.lanes, List.flatMap_map, ALane.dec,
+        Function.comp_def] using h
 
-/-- What `Commands.run` collects from the final lanes: items of the `save` lanes and the errors of
-    all lanes, both in declaration order. -/
+/-- What `Commands.run` collects from the final lanes: items of the `save` commands and the errors of
+    all commands, both in declaration order. -/
 theorem collect_final (cs : List ACommand) :
-    let r := collect cs ((lanesOf cs).map finalLane)
-    slotItems r.1 = ((alanesOf cs).filter (·.save)).flatMap ALane.items ∧
-    r.2 = (alanesOf cs).flatMap ALane.errors := by
+    let r := collect cs ((lanesOf cs).map (fun l => finalLane l.dec l.procs))
+    slotItems r.1 = (cs.filter (·.save)).flatMap ACommand.items ∧
+    r.2 = cs.flatMap ACommand.errors := by
   induction cs with
-  | nil => simp [collect, slotItems, alanesOf]
+  | nil => simp [collect, slotItems]
   | cons c cs ih =>
     simp only [] at ih
-    have hc := commandSlots_final c ((lanesOf cs).map finalLane)
+    have hc := commandSlots_final c ((lanesOf cs).map (fun l => finalLane l.dec l.procs))
     simp only [] at hc
-    simp only [lanesOf, List.map_append, collect, alanesOf, List.filter_append, List.flatMap_append]
+    simp only [lanesOf, List.map_append, collect, List.flatMap_cons]
     rw [hc.1]
     refine ⟨?_, ?_⟩
     · rw [slotItems_append, ih.1]
-      congr 1
-      cases hs : c.save
-      · have : (alanesOfCmd c).filter (·.save) = [] := by
-          simp [alanesOfCmd, hs]
-        simp [this, slotItems]
-      · have : (alanesOfCmd c).filter (·.save) = alanesOfCmd c := by
-          simp [alanesOfCmd, hs]
-        simp [this, hc.2]
+      cases hs : c.save <;> simp [hs, slotItems, hc.2]
     · rw [ih.2, slotErrors_eq, hc.2]
-      congr 1
-      simp only [List.flatMap_assoc]
       rfl
 
 /-- Started processes of a final lane. -/
-theorem laneStarted_final (ps : List Proc) :
-    laneStarted (finalLane ps) = ((takeThrough ps).filter Proc.ran).map (·.id) := by
+theorem laneStarted_final (dec : Bool) (ps : List Proc) :
+    laneStarted (finalLane dec ps) = ((takeThrough dec ps).filter Proc.ran).map (·.id) := by
   simp [laneStarted, finalLane]
 
 /-- `takeThrough` is what its name says: a prefix; nothing in it but its last element stops. -/
-theorem takeThrough_split (ps : List Proc) :
-    ∃ rest, ps = takeThrough ps ++ rest ∧
-      ((rest = [] ∧ ∀ p ∈ takeThrough ps, p.stops = false) ∨
-       ∃ init p, takeThrough ps = init ++ [p] ∧ (∀ x ∈ init, x.stops = false) ∧ p.stops = true) := by
+theorem takeThrough_split (dec : Bool) (ps : List Proc) :
+    ∃ rest, ps = takeThrough dec ps ++ rest ∧
+      ((rest = [] ∧ ∀ p ∈ takeThrough dec ps, p.stops dec = false) ∨
+       ∃ init p, takeThrough dec ps = init ++ [p] ∧ (∀ x ∈ init, x.stops dec = false) ∧
+         p.stops dec = true) := by
   induction ps with
   | nil => exact ⟨[], rfl, .inl ⟨rfl, by simp [takeThrough]⟩⟩
   | cons p ps ih =>
     obtain ⟨rest, h1, h2⟩ := ih
-    by_cases hc : p.stops = true
+    by_cases hc : p.stops dec = true
     · exact ⟨ps, by simp [takeThrough, hc], .inr ⟨[], p, by simp [takeThrough, hc], by simp, hc⟩⟩
-    · have hz : p.stops = false := by simpa using hc
+    · have hz : p.stops dec = false := by simpa using hc
       refine ⟨rest, ?_, ?_⟩
       · simp only [takeThrough, if_neg hc, List.cons_append]
         rw [← h1]
